@@ -21,7 +21,7 @@ func baseParams() DParams {
 }
 
 func smoke() int {
-	dir, _ := os.MkdirTemp("/verif/.build", "smoke")
+	dir, _ := os.MkdirTemp(verifRoot+"/.build", "smoke")
 	defer os.RemoveAll(dir)
 	g := &GenCfg{ChainID: "verif-chain", Params: baseParams()}
 	for i := 0; i < 3; i++ {
